@@ -1,4 +1,4 @@
-; known-finding witnesses (one per proposed class)
+; known-finding witnesses (one per class; the MultiConditional one is fixed by 9d0861d and now keeps the empty body in place)
 (visit plain false false node (((assign 1) none)) (assoc 1 ((assign 1) (assign 2))))
 (visit plain false false node (((assign 1) none)) (mcond 0 ((assign 1)) ((assign 2)) ((assign 3))))
 (visit plain false false tuple (((assign 1) (tuple (loop 2 ((assign 1))) (assign 1)))) ((assign 1)))
